@@ -60,6 +60,7 @@ func (x *Exec) libCall(key string, fn *types.Func, call *ast.CallExpr, recvExpr 
 		ln := x.W.SeqLen(cur)
 		nv := x.W.MkSeq(cur.Sort, Store(x.W.SeqBase(cur), Arith("+", x.W.SeqOff(cur), ln), v), x.W.SeqOff(cur), Arith("+", ln, IntLit(1)))
 		nv.GoT = cur.GoT
+		nv = x.seqUpdateFacts(nv, cur, ln, v)
 		x.assign(recvExpr, nv, env)
 		return []Term{False}, true
 	case "bytes.(*Buffer).Write", "bytes.(*Buffer).WriteString", "strings.(*Builder).WriteString", "strings.(*Builder).Write":
